@@ -754,8 +754,11 @@ def run(ctx):
     sigcount = {}
     tot = {"explicit": {}, "implicit": {}}
     graphs = {"explicit": 0, "implicit": 0}
+    allv = [v for r in res for v in r[2]]
+    # smallest witness first: blocks, assignments, then text length
+    allv.sort(key=lambda v: (v["case"]["n"], sum(len(b) for b in v["case"]["bodies"]), len(v["what"]), v["what"]))
+    ctx.add_violations(allv)
     for r in res:
-        ctx.add_violations(r[2])
         graphs[r[5]] += r[0]
         for k, v in r[4].items():
             sigcount[k] = sigcount.get(k, 0) + v
